@@ -71,6 +71,8 @@ class MethodMixin:
         def _exit(a, k, n, f):
             raise PyRaise(SystemExit, tuple(a), n)
         reg(_sys.exit, _exit)
+        import codecs as _codecs
+        reg(_codecs.decode, lambda a, k, n, f: self.bytes_decode(a[0], a[1] if len(a) > 1 else k.get('encoding', 'utf-8'), n))
         import os.path
         reg(os.path.join, lambda a, k, n, f: os.path.join(*a) if not any(is_sym(x) for x in a) else self.ufun(f'py_path_join{len(a)}', *([STR] * len(a)), STR)(*[self.zs.lift(x, STR) for x in a]))
         for nm_ in ('exists', 'isdir', 'isfile', 'islink'):
@@ -163,6 +165,8 @@ class MethodMixin:
             if s.name() in self.zs.enum_by_sort:
                 srt, terms, objs, S = self.zs.enum_by_sort[s.name()]
                 return self.lor(*[v == terms[lb] for lb, o in objs.items() if isinstance(o, t)])
+            if s == self.zs.zsort(api.Obj):
+                return self.obj_isinstance(VObj(v), t)       # a raw opaque-object term (element of a symbolic sequence of objects)
             raise Unsupported(f'isinstance on sort {s}')
         return isinstance(v, t)
 
@@ -498,11 +502,18 @@ class MethodMixin:
             if isinstance(recv, type):
                 return self.call_function(bm.fn, [recv] + list(args), kwargs, node)
             return self.call_function(bm.fn, [recv] + list(args), kwargs, node)
+        if isinstance(recv, VObj) and name == 'decode' and recv.term.get_id() in self.__dict__.get('bytes_terms', ()):
+            return self.bytes_decode(recv, args[0] if args else kwargs.get('encoding', 'utf-8'), node)
         if isinstance(recv, VObj):
             # method of an opaque object: an uninterpreted function of the object and the arguments (assumed pure),
             # recorded in the ghost effect trace
             spec_ = self.cur_contract.opaque[name]
             argsorts, ret = spec_[0], spec_[1]
+            if isinstance(ret, api.Const):
+                # this variant of the contract is about objects whose method answers this constant (a stated assumption)
+                self.path.trace.append((name, ()))
+                self.assumptions.add(f'this variant: opaque method {name} answers {ret.value!r}')
+                return ret.value
             if len(spec_) > 2 and kwargs:
                 # keyword arguments by declared name: ([sorts], ret, [names])
                 from .calls import ABSENT
@@ -911,9 +922,36 @@ class MethodMixin:
             return z3.IndexOf(t, z3.Unit(x), 0)
         raise Unsupported(f'seq.{name}')
 
+    _UTF = {'utf-8', 'utf8', 'utf_8', 'utf-16', 'utf16', 'utf-32', 'utf32', 'utf-16-le', 'utf-16-be', 'utf-32-le', 'utf-32-be'}
+
+    def str_encode(self, s, enc, node):
+        """str.encode: the bytes are an opaque object, a function of the text and the encoding.  A UTF encoding can encode every
+        text (lone surrogates aside: a text decoded from a file has none — assumed); any other codec may fail"""
+        if is_sym(enc):
+            raise Unsupported('str.encode with a symbolic encoding')
+        encn = str(enc).lower()
+        if encn not in self._UTF:
+            if self.path.branch(self.path.fresh(z3.BoolSort(), 'encode_fails')):
+                raise PyRaise(UnicodeEncodeError, (), node)
+        else:
+            self.assumptions.add('str.encode to a UTF encoding never fails (texts hold no lone surrogates)')
+        b = VObj(self.ufun('py_encode_' + ''.join(c for c in encn if c.isalnum()), STR, self.zs.zsort(api.Obj))(s))
+        self.__dict__.setdefault('bytes_terms', set()).add(b.term.get_id())
+        return b
+
+    def bytes_decode(self, b, codec, node):
+        if is_sym(codec):
+            raise Unsupported('decode with a symbolic codec')
+        if self.path.branch(self.path.fresh(z3.BoolSort(), 'decode_fails')):
+            raise PyRaise(UnicodeDecodeError, (), node)
+        self.assumptions.add('bytes.decode / codecs.decode: the text is a function of the bytes and the codec; it may fail with UnicodeDecodeError only')
+        return self.ufun('py_decode_' + ''.join(c for c in str(codec).lower() if c.isalnum()), self.zs.zsort(api.Obj), STR)(self.unwrap_term(b))
+
     def m_str(self, recv, name, args, kwargs, node):
         lift = lambda v: self.zs.lift(v, STR)
         s = lift(recv)
+        if name == 'encode':
+            return self.str_encode(s, args[0] if args else kwargs.get('encoding', 'utf-8'), node)
         if name in ('startswith', 'endswith'):
             if len(args) != 1:
                 raise Unsupported(f'{name} with start/end')
